@@ -3,6 +3,16 @@ use thiserror::Error as ThisError;
 
 #[derive(Serialize, Deserialize, PartialEq, Eq, Clone, ThisError, Debug)]
 pub enum HttpError {
+    #[error("URL parse error: {0}")]
+    Url(String),
+    #[error("IO error: {0}")]
+    Io(String),
+    #[error("Timeout")]
+    Timeout,
+    // The variants below never cross the FFI boundary. They must stay last: serde numbers the
+    // variants it serializes by their position in this enum but numbers the ones it accepts
+    // (and the ones typegen exports) with the skipped ones left out, so a skipped variant
+    // placed before a serialized one shifts that variant's index on the wire.
     #[error("HTTP error {code}: {message}")]
     #[serde(skip)]
     Http {
@@ -13,12 +23,6 @@ pub enum HttpError {
     #[error("JSON serialisation error: {0}")]
     #[serde(skip)]
     Json(String),
-    #[error("URL parse error: {0}")]
-    Url(String),
-    #[error("IO error: {0}")]
-    Io(String),
-    #[error("Timeout")]
-    Timeout,
 }
 
 impl From<http_types::Error> for HttpError {
